@@ -32,7 +32,8 @@
 (* Within one call operands are identical or disjoint (partial aliasing inside *)
 (* one Eigen assignment is outside the API's contract): MM_BUG = "alias" lifts *)
 (* that restriction and TLC shows why it is needed.  Other seeded variants:    *)
-(* "dofpsum" (Bundle part<i>() through DofsPsum), "short" (operator= copies    *)
+(* "notemp" (operator*= without its temporary: wrong exactly when the right       *)
+(* operand IS the destination), "dofpsum" (Bundle part<i>() via DofsPsum), "short" (operator= copies  *)
 (* RepSize-1 coefficients), "galso3" (Galilei so3() at +6).  The unseeded      *)
 (* model (MM_BUG = "none") must satisfy all invariants.                        *)
 (*                                                                             *)
@@ -44,7 +45,7 @@
 (* Parameters come from the environment (one .cfg for all types):              *)
 (*   MM_TYPE  SO2 SO3 C1 SE2 SE3 Gal SEK3_2 SEK3_3 B3 B5 BN                     *)
 (*   MM_DEPTH history length         MM_OUT  output file or "-"                *)
-(*   MM_ALPHA full | core            MM_BUG  none | alias | dofpsum | short | galso3 *)
+(*   MM_ALPHA full | core            MM_BUG  none | alias | notemp | dofpsum | short | galso3 *)
 EXTENDS MapLayout, FiniteSets, TLC, Json, IOUtils
 
 VARIABLES mem, pmem, last, rd, res, hist
@@ -130,8 +131,11 @@ Geometry == [type |-> IOEnv.MM_TYPE, R |-> R, NB |-> NB,
 \* steps
 None == [k |-> "none", v |-> "-"]
 St(op, d, s, o, i, x) == [op |-> op, d |-> d, s |-> s, o |-> o, i |-> i, x |-> x]
-Dsts == [k : {"map"}, v : BufNames] \cup [k : {"val"}, v : ValNames]
-Srcs == [k : {"map", "cmap"}, v : BufNames] \cup [k : {"val"}, v : ValNames]
+\* views may also be laid over the memory of a value object (Map<G>(x.data())): a second object over the SAME region
+ValViewDst == IF Alpha = "core" THEN {} ELSE [k : {"map"}, v : {"V0"}]
+ValViewSrc == IF Alpha = "core" THEN [k : {"cmap"}, v : {"V0"}] ELSE [k : {"map", "cmap"}, v : {"V0"}] \cup [k : {"cmap"}, v : {"V1"}]
+Dsts == [k : {"map"}, v : BufNames] \cup [k : {"val"}, v : ValNames] \cup ValViewDst
+Srcs == [k : {"map", "cmap"}, v : BufNames] \cup [k : {"val"}, v : ValNames] \cup ValViewSrc
 SamePos(a, b) == Pos(a.v) = Pos(b.v)
 Disj(a, b) == Pos(a.v) + R <= Pos(b.v) \/ Pos(b.v) + R <= Pos(a.v)
 OkPair(a, b) == Bug = "alias" \/ SamePos(a, b) \/ Disj(a, b)
@@ -145,13 +149,15 @@ CodeTab == [nm \in SubNames |-> CodeOffOfG(GT, nm)]
 SubOf(g, nm) == SubTab[nm]
 CodeOffOf(g, nm) == CodeTab[nm]
 
-Mutators == {"assign", "massign", "mul", "copyctor", "plus", "setid", "subassign", "subsetid", "submul"}
+Mutators == {"assign", "massign", "mul", "amul", "bmul", "copyctor", "plus", "setid", "subassign", "subsetid", "submul"}
 Observers == {"cast", "const", "const2", "subconst"}
 
 Steps ==
   {St("assign", p[1], p[2], None, "-", "-") : p \in Pairs}
   \cup {St("massign", p[1], p[2], None, "-", "-") : p \in {q \in Pairs : q[1].k = q[2].k}}   \* x = std::move(y), same storage kind
-  \cup {St("mul", p[1], p[2], None, "-", "-") : p \in Pairs}
+  \cup {St("mul", p[1], p[2], None, "-", "-") : p \in Pairs}                     \* a *= b   (identical operands included: x *= x,
+  \cup {St("amul", p[1], p[2], None, "-", "-") : p \in Pairs}                    \* a = a * b   two view objects over one region)
+  \cup {St("bmul", p[1], p[2], None, "-", "-") : p \in Pairs}                    \* a = b * a
   \cup {St("copyctor", p[1], p[2], None, "-", "-") : p \in {q \in ValDsts \X Srcs : ~SamePos(q[1], q[2])}}
   \cup {St("plus", d, None, None, "-", "-") : d \in Dsts}
   \cup {St("setid", d, None, None, "-", "-") : d \in Dsts}
@@ -166,6 +172,7 @@ Steps ==
 
 ---------------------------------------------------------------------------
 \* SPECIFICATION (value semantics over documented ranges)
+Tok0(c) == <<"cell", c, 0>>            \* initial content of cell c (same shape as computed tokens <<op, step, j>>)
 Fresh(op, n, len) == [j \in 1..len |-> <<op, n, j>>]
 IsSubOp(st) == st.op \in {"subassign", "subsetid", "submul", "subconst"}
 \* destination range [lo, lo+len) ; len = 0 for observers
@@ -178,7 +185,8 @@ OpLen(st) == IF IsSubOp(st) THEN SubOf(GT, st.i).len ELSE R
 \* operand coefficient tuples, in the order (destination-as-operand, source, other)
 SpecReads(st, m) ==
   CASE st.op \in {"assign", "massign", "copyctor"} -> <<Rd(m, SrcLo(st, st.s), R)>>
-    [] st.op = "mul" -> <<Rd(m, DestLo(st), R), Rd(m, SrcLo(st, st.s), R)>>
+    [] st.op \in {"mul", "amul"} -> <<Rd(m, DestLo(st), R), Rd(m, SrcLo(st, st.s), R)>>
+    [] st.op = "bmul" -> <<Rd(m, SrcLo(st, st.s), R), Rd(m, DestLo(st), R)>>
     [] st.op = "plus" -> <<Rd(m, DestLo(st), R)>>
     [] st.op = "setid" -> <<>>
     [] st.op \in {"cast", "const"} -> <<Rd(m, SrcLo(st, st.s), R)>>
@@ -191,7 +199,7 @@ SpecReads(st, m) ==
 \* new contents of the destination range
 SpecVals(st, m, n) ==
   CASE st.op \in {"assign", "massign", "copyctor"} -> Rd(m, SrcLo(st, st.s), R)        \* verbatim
-    [] st.op \in {"mul", "plus", "setid"} -> Fresh(st.op, n, R)
+    [] st.op \in {"mul", "amul", "bmul", "plus", "setid"} -> Fresh(st.op, n, R)
     [] st.op = "subassign" -> IF st.x = "part" THEN Rd(m, SrcLo(st, st.s), OpLen(st)) ELSE Fresh("fresh", n, OpLen(st))
     [] st.op \in {"subsetid", "submul"} -> Fresh(st.op, n, OpLen(st))
     [] OTHER -> <<>>
@@ -227,8 +235,15 @@ ImplStep(st, m, n) ==
             ELSE [mem |-> StoreLoop(m, da, Fresh("fresh", n, len), 1), rd |-> <<>>, res |-> noRes]
        [] st.op \in {"mul", "submul"} ->
             \* PlainObject ret; composition(this->coeffs(), o.coeffs(), ret.coeffs()); coeffs() = ret.coeffs()
-            LET a == Rd(m, da, len)  b == Rd(m, sa, len)
+            \* seeded variant "notemp": copy of the left factor only, composition stores straight into the destination,
+            \* so the right factor is still being read after the first destination coefficient has been stored
+            LET a == Rd(m, da, len)
+                b == IF Bug = "notemp" THEN Rd(StoreLoop(m, da, <<Fresh(st.op, n, len)[1]>>, 1), sa, len) ELSE Rd(m, sa, len)
             IN [mem |-> StoreLoop(m, da, Fresh(st.op, n, len), 1), rd |-> <<a, b>>, res |-> noRes]
+       [] st.op \in {"amul", "bmul"} ->
+            \* operator* returns a PlainObject temporary which is then assigned
+            LET a == Rd(m, da, len)  b == Rd(m, sa, len)
+            IN [mem |-> StoreLoop(m, da, Fresh(st.op, n, len), 1), rd |-> IF st.op = "amul" THEN <<a, b>> ELSE <<b, a>>, res |-> noRes]
        [] st.op = "plus" ->
             LET a == Rd(m, da, len)
             IN [mem |-> StoreLoop(m, da, Fresh("plus", n, len), 1), rd |-> <<a>>, res |-> noRes]
@@ -243,8 +258,8 @@ ImplStep(st, m, n) ==
 
 ---------------------------------------------------------------------------
 Init ==
-  /\ mem = [c \in Cells |-> c]
-  /\ pmem = [c \in Cells |-> c]
+  /\ mem = [c \in Cells |-> Tok0(c)]
+  /\ pmem = [c \in Cells |-> Tok0(c)]
   /\ last = St("init", None, None, None, "-", "-")
   /\ rd = <<>>
   /\ res = <<>>
@@ -279,7 +294,7 @@ WritesAll == Started => WritesOK(mem, DestLo(last), DestLen(last), SpecVals(last
 \* const views have no write action; observers write nothing
 ConstNeverWrites == /\ last.d.k # "cmap"
                     /\ (Started /\ last.op \in Observers) => mem = pmem
-GuardsIntact == \A c \in GuardCells : mem[c] = c
+GuardsIntact == \A c \in GuardCells : mem[c] = Tok0(c)
 ASSUME LayoutTiles == Tiles(GT)          \* the documented top-level parts tile [0, RepSize) in order
 \* storage kind is irrelevant to the specification: it only mentions positions (checked syntactically by
 \* SpecNext/SpecReads/SpecRes not using .k); the implementation shape reaches the same cells for every kind
